@@ -20,6 +20,14 @@ def inject (t : Ty) : Stored → Val
     | .dec _ _ _ => .i v
   | .dec c s => .d c s
 
+/-- well-formed SQL types: DECIMAL scale ≤ precision, BIT width ≤ 64 -/
+def _root_.Gms.Conv.Ty.WF : Ty → Prop
+  | .dec p s _ => s ≤ p
+  | .bit n => n ≤ 64
+  | _ => True
+
+instance (t : Ty) : Decidable t.WF := by cases t <;> unfold Ty.WF <;> infer_instance
+
 /-! ## Insert policy -/
 
 inductive Outcome where
